@@ -649,6 +649,1299 @@ theorem tls_start_aligned_witness :
     tls.align = 9 ∧ tls.memStart % 2 ^ tls.align ≠ 0 := by
   decide
 
+/-! ## Output order automaton: the event list is well bracketed -/
+
+/-- What event `e` says about segment `id`: `some true` = its start, `some false` = its end. -/
+def evTag (id : Nat) (e : Event) : Option Bool :=
+  match e with
+  | .segStart j => if j = id then some true else none
+  | .segEnd j => if j = id then some false else none
+  | _ => none
+
+/-- The start/end history of segment `id` in an event list. -/
+def trace (id : Nat) (evs : List Event) : List Bool := evs.filterMap (evTag id)
+
+/-- Ids held by the active slots. -/
+def activeIds (as : List (Option Nat)) : List Nat := as.filterMap id
+
+theorem trace_append (id : Nat) (a b : List Event) : trace id (a ++ b) = trace id a ++ trace id b := by
+  simp [trace, List.filterMap_append]
+
+theorem trace_ends (id : Nat) (l : List Nat) :
+    trace id (l.map Event.segEnd) = List.replicate (l.count id) false := by
+  induction l with
+  | nil => rfl
+  | cons j l ih =>
+    simp only [List.map_cons, trace, List.filterMap_cons, evTag] at ih ⊢
+    by_cases h : j = id
+    · subst h; simp [ih, List.replicate_succ]
+    · have h' : (j == id) = false := by simpa using h
+      simp [h, ih]
+
+theorem trace_starts (id : Nat) (l : List Nat) :
+    trace id (l.map Event.segStart) = List.replicate (l.count id) true := by
+  induction l with
+  | nil => rfl
+  | cons j l ih =>
+    simp only [List.map_cons, trace, List.filterMap_cons, evTag] at ih ⊢
+    by_cases h : j = id
+    · subst h; simp [ih, List.replicate_succ]
+    · have h' : (j == id) = false := by simpa using h
+      simp [h, ih]
+
+theorem trace_sections (id : Nat) (l : List Nat) : trace id (l.map Event.section) = [] := by
+  induction l with
+  | nil => rfl
+  | cons j l ih => simp [trace, evTag] at ih ⊢
+
+/-- Per-id invariant of the builder state: `c` = number of active slots holding `id`, `t` = its history,
+`n` = number of segment ids created so far. -/
+def IdInv (n id c : Nat) (t : List Bool) : Prop :=
+  (c = 1 ∧ t = [true] ∧ id < n) ∨ (c = 0 ∧ t = [true, false] ∧ id < n) ∨ (c = 0 ∧ t = [] ∧ n ≤ id)
+
+def OInv (st : OState) : Prop :=
+  ∀ id, IdInv st.segDefs.length id ((activeIds st.active).count id) (trace id st.events)
+
+/-- One builder step seen from one id: `a` ends then `b` starts are appended. -/
+theorem IdInv.step {n n' id c c' a b : Nat} {t : List Bool} (h : IdInv n id c t)
+    (ha : a ≤ c) (hc : c' + a = c + b) (hb : b = if n ≤ id ∧ id < n' then 1 else 0) (hn : n ≤ n') :
+    IdInv n' id c' (t ++ (List.replicate a false ++ List.replicate b true)) := by
+  rcases h with ⟨h1, h2, h3⟩ | ⟨h1, h2, h3⟩ | ⟨h1, h2, h3⟩
+  · have hb0 : b = 0 := by rw [hb, if_neg (by omega)]
+    subst hb0
+    have : a = 0 ∨ a = 1 := by omega
+    rcases this with rfl | rfl
+    · left; exact ⟨by omega, by simp [h2], by omega⟩
+    · right; left; exact ⟨by omega, by simp [h2], by omega⟩
+  · have hb0 : b = 0 := by rw [hb, if_neg (by omega)]
+    subst hb0
+    have : a = 0 := by omega
+    subst this
+    right; left; exact ⟨by omega, by simp [h2], by omega⟩
+  · have : a = 0 := by omega
+    subst this
+    by_cases hlt : id < n'
+    · have hb1 : b = 1 := by rw [hb, if_pos ⟨h3, hlt⟩]
+      subst hb1
+      left; exact ⟨by omega, by simp [h2], hlt⟩
+    · have hb0 : b = 0 := by rw [hb, if_neg (by omega)]
+      subst hb0
+      right; right; exact ⟨by omega, by simp [h2], by omega⟩
+
+/-- Conservation law of the zip loop of `start_stop_segments_for_section`, per id. -/
+theorem startStopLoop_counts (s : Sec) (id : Nat) (ds : List SegDef) (as : List (Option Nat)) (k : Nat)
+    (sd : List Nat) (as' : List (Option Nat)) (stop start sd' : List Nat)
+    (h : startStopLoop s ds as k sd = (as', stop, start, sd')) :
+    stop.count id ≤ (activeIds as).count id ∧
+    (activeIds as').count id + stop.count id = (activeIds as).count id + start.count id ∧
+    start.count id = (if sd.length ≤ id ∧ id < sd'.length then 1 else 0) ∧
+    sd.length ≤ sd'.length := by
+  induction ds generalizing as k sd as' stop start sd' with
+  | nil =>
+    simp only [startStopLoop, Prod.mk.injEq] at h
+    obtain ⟨rfl, rfl, rfl, rfl⟩ := h
+    refine ⟨by simp, by simp, ?_, Nat.le_refl _⟩
+    rw [if_neg (by omega)]; simp
+  | cons d ds ih =>
+    cases as with
+    | nil =>
+      simp only [startStopLoop, Prod.mk.injEq] at h
+      obtain ⟨rfl, rfl, rfl, rfl⟩ := h
+      refine ⟨by simp, by simp, ?_, Nat.le_refl _⟩
+      rw [if_neg (by omega)]; simp
+    | cons a as =>
+      cases a with
+      | none =>
+        cases hinc : includes d k s with
+        | false =>
+          simp only [startStopLoop, hinc] at h
+          generalize hr : startStopLoop s ds as (k + 1) sd = r at h
+          obtain ⟨as1, stop1, start1, sd1⟩ := r
+          simp only [Prod.mk.injEq] at h
+          obtain ⟨rfl, rfl, rfl, rfl⟩ := h
+          have := ih as (k + 1) sd _ _ _ _ hr
+          simpa [activeIds] using this
+        | true =>
+          simp only [startStopLoop, hinc] at h
+          generalize hr : startStopLoop s ds as (k + 1) (sd ++ [k]) = r at h
+          obtain ⟨as1, stop1, start1, sd1⟩ := r
+          simp only [Prod.mk.injEq] at h
+          obtain ⟨rfl, rfl, rfl, rfl⟩ := h
+          obtain ⟨h1, h2, h3, h4⟩ := ih as (k + 1) (sd ++ [k]) _ _ _ _ hr
+          simp only [List.length_append, List.length_cons, List.length_nil, Nat.zero_add] at h3 h4
+          simp only [activeIds, List.filterMap_cons, id_eq, List.count_cons] at h1 h2 ⊢
+          by_cases hid : sd.length = id
+          · subst hid
+            rw [if_neg (by omega)] at h3
+            simp only [beq_self_eq_true, if_true]
+            rw [if_pos ⟨Nat.le_refl _, by omega⟩]
+            omega
+          · have hb : (sd.length == id) = false := by simpa using hid
+            simp only [hb, Bool.false_eq_true, if_false, Nat.add_zero]
+            refine ⟨h1, h2, ?_, by omega⟩
+            rw [h3]
+            by_cases hc : sd.length + 1 ≤ id ∧ id < sd1.length
+            · rw [if_pos hc, if_pos ⟨by omega, hc.2⟩]
+            · rw [if_neg hc, if_neg (by omega)]
+      | some j =>
+        cases hinc : includes d k s with
+        | false =>
+          simp only [startStopLoop, hinc] at h
+          generalize hr : startStopLoop s ds as (k + 1) sd = r at h
+          obtain ⟨as1, stop1, start1, sd1⟩ := r
+          simp only [Prod.mk.injEq] at h
+          obtain ⟨rfl, rfl, rfl, rfl⟩ := h
+          obtain ⟨h1, h2, h3, h4⟩ := ih as (k + 1) sd _ _ _ _ hr
+          simp only [activeIds, List.filterMap_cons, id_eq, List.count_cons] at h1 h2 ⊢
+          exact ⟨by omega, by omega, h3, h4⟩
+        | true =>
+          simp only [startStopLoop, hinc] at h
+          generalize hr : startStopLoop s ds as (k + 1) sd = r at h
+          obtain ⟨as1, stop1, start1, sd1⟩ := r
+          simp only [Prod.mk.injEq] at h
+          obtain ⟨rfl, rfl, rfl, rfl⟩ := h
+          obtain ⟨h1, h2, h3, h4⟩ := ih as (k + 1) sd _ _ _ _ hr
+          simp only [activeIds, List.filterMap_cons, id_eq, List.count_cons] at h1 h2 ⊢
+          exact ⟨by omega, by omega, h3, h4⟩
+
+theorem count_set_none (as : List (Option Nat)) (i j id : Nat) (h : as.getD i none = some j) :
+    (activeIds (as.set i none)).count id + (if j = id then 1 else 0) = (activeIds as).count id := by
+  induction as generalizing i with
+  | nil => simp at h
+  | cons a as ih =>
+    cases i with
+    | zero =>
+      simp only [List.getD_cons_zero] at h
+      subst h
+      simp only [List.set_cons_zero, activeIds, List.filterMap_cons, id_eq, List.count_cons, beq_iff_eq]
+    | succ i =>
+      simp only [List.getD_cons_succ] at h
+      have := ih i h
+      cases a with
+      | none => simpa [activeIds] using this
+      | some x =>
+        simp only [List.set_cons_succ, activeIds, List.filterMap_cons, id_eq, List.count_cons] at this ⊢
+        omega
+
+/-- A builder step that appends `stop` ends, neutral events, `start` starts, neutral events keeps the
+invariant if the per-id conservation law holds. -/
+theorem OInv.extend {st st' : OState} {stop start : List Nat} {mid tail : List Event} (h : OInv st)
+    (hev : st'.events = st.events ++ stop.map Event.segEnd ++ mid ++ start.map Event.segStart ++ tail)
+    (hmid : ∀ id, trace id mid = []) (htail : ∀ id, trace id tail = [])
+    (hn : st.segDefs.length ≤ st'.segDefs.length)
+    (hcnt : ∀ id, stop.count id ≤ (activeIds st.active).count id ∧
+      (activeIds st'.active).count id + stop.count id = (activeIds st.active).count id + start.count id ∧
+      start.count id = (if st.segDefs.length ≤ id ∧ id < st'.segDefs.length then 1 else 0)) :
+    OInv st' := by
+  intro id
+  obtain ⟨h1, h2, h3⟩ := hcnt id
+  have := IdInv.step (h id) h1 h2 h3 hn
+  rw [hev]
+  simp only [trace_append, hmid, htail, trace_ends, trace_starts, List.append_nil, List.append_assoc] at this ⊢
+  exact this
+
+theorem endRwLoad_inv (defs : List SegDef) (st : OState) (h : OInv st) : OInv (endRwLoad defs st) := by
+  unfold endRwLoad
+  split
+  · exact h
+  · rename_i i _
+    split
+    · exact h
+    · rename_i j hj
+      apply OInv.extend (stop := [j]) (start := []) (mid := []) (tail := []) h
+      · simp
+      · intro id; rfl
+      · intro id; rfl
+      · exact Nat.le_refl _
+      · intro id
+        have hc := count_set_none st.active i j id hj
+        simp only [List.count_cons, List.count_nil, beq_iff_eq, Nat.zero_add, Nat.add_zero]
+        refine ⟨by omega, by omega, ?_⟩
+        rw [if_neg (by omega)]
+
+/-- The `(active, stop, start, segDefs)` selection inside `add_section`. -/
+def addSel (defs : List SegDef) (partialObj : Bool) (s : Sec) (st : OState) :
+    List (Option Nat) × List Nat × List Nat × List Nat :=
+  if partialObj then (st.active, [], [], st.segDefs)
+  else if s.primary.isSome then (st.active, [], [], st.segDefs)
+  else
+    let p := if s.loc.isSome then (st.active.filterMap id, st.active.map (fun _ => (none : Option Nat))) else ([], st.active)
+    let r := startStopLoop s defs p.2 0 st.segDefs
+    (r.1, p.1 ++ r.2.1, r.2.2.1, r.2.2.2)
+
+def locEvents (s : Sec) : List Event :=
+  match s.loc with
+  | some a => if s.alloc then [Event.setLoc a] else []
+  | none => []
+
+theorem addSection_eq (defs : List SegDef) (partialObj : Bool) (secs : Nat → Sec) (st : OState) (sid : Nat)
+    (secondaries : List Nat) :
+    addSection defs partialObj secs st sid secondaries =
+      let s := secs sid
+      let st1 := if shouldEndRw defs st s then endRwLoad defs st else st
+      let q := addSel defs partialObj s st1
+      { events := st1.events ++ q.2.1.map Event.segEnd ++ locEvents s ++ q.2.2.1.map Event.segStart ++
+          ([Event.section sid] ++ secondaries.map Event.section),
+        segDefs := q.2.2.2, active := q.1 } := by
+  unfold addSection addSel locEvents
+  generalize secs sid = s
+  rcases s with ⟨primary, alloc, w, x, tls, nobits, hasData, emitted, noteLike, minAlign, loc, aux, parts⟩
+  cases loc <;> cases alloc <;> simp
+
+theorem activeIds_map_none (as : List (Option Nat)) : activeIds (as.map (fun _ => (none : Option Nat))) = [] := by
+  induction as with
+  | nil => rfl
+  | cons a as ih => simpa [activeIds] using ih
+
+theorem addSel_counts (defs : List SegDef) (partialObj : Bool) (s : Sec) (st : OState) (id : Nat)
+    (as' : List (Option Nat)) (stop start sd' : List Nat)
+    (h : addSel defs partialObj s st = (as', stop, start, sd')) :
+    stop.count id ≤ (activeIds st.active).count id ∧
+    (activeIds as').count id + stop.count id = (activeIds st.active).count id + start.count id ∧
+    start.count id = (if st.segDefs.length ≤ id ∧ id < sd'.length then 1 else 0) ∧
+    st.segDefs.length ≤ sd'.length := by
+  unfold addSel at h
+  by_cases hp : partialObj = true
+  · simp only [hp, if_true, Prod.mk.injEq] at h
+    obtain ⟨rfl, rfl, rfl, rfl⟩ := h
+    refine ⟨by simp, by simp, ?_, Nat.le_refl _⟩
+    rw [if_neg (by omega)]; rfl
+  · simp only [hp, Bool.false_eq_true, if_false] at h
+    by_cases hpr : s.primary.isSome = true
+    · simp only [hpr, if_true, Prod.mk.injEq] at h
+      obtain ⟨rfl, rfl, rfl, rfl⟩ := h
+      refine ⟨by simp, by simp, ?_, Nat.le_refl _⟩
+      rw [if_neg (by omega)]; rfl
+    · simp only [hpr, Bool.false_eq_true, if_false] at h
+      by_cases hloc : s.loc.isSome = true
+      · simp only [hloc, if_true] at h
+        generalize hr : startStopLoop s defs (st.active.map (fun _ => (none : Option Nat))) 0 st.segDefs = r at h
+        obtain ⟨as1, stop1, start1, sd1⟩ := r
+        simp only [Prod.mk.injEq] at h
+        obtain ⟨rfl, rfl, rfl, rfl⟩ := h
+        obtain ⟨h1, h2, h3, h4⟩ := startStopLoop_counts s id defs _ 0 st.segDefs _ _ _ _ hr
+        rw [activeIds_map_none] at h1 h2
+        simp only [List.count_nil, Nat.zero_add] at h1 h2
+        refine ⟨?_, ?_, h3, h4⟩
+        · rw [List.count_append]; unfold activeIds at *; omega
+        · rw [List.count_append]; unfold activeIds at *; omega
+      · simp only [hloc, Bool.false_eq_true, if_false, List.nil_append] at h
+        generalize hr : startStopLoop s defs st.active 0 st.segDefs = r at h
+        obtain ⟨as1, stop1, start1, sd1⟩ := r
+        simp only [Prod.mk.injEq] at h
+        obtain ⟨rfl, rfl, rfl, rfl⟩ := h
+        exact startStopLoop_counts s id defs st.active 0 st.segDefs _ _ _ _ hr
+
+theorem locEvents_trace (s : Sec) (id : Nat) : trace id (locEvents s) = [] := by
+  unfold locEvents
+  cases s.loc with
+  | none => rfl
+  | some a => cases s.alloc <;> rfl
+
+theorem addSection_inv (defs : List SegDef) (partialObj : Bool) (secs : Nat → Sec) (st : OState) (sid : Nat)
+    (secondaries : List Nat) (h : OInv st) : OInv (addSection defs partialObj secs st sid secondaries) := by
+  rw [addSection_eq]
+  simp only
+  have h1 : OInv (if shouldEndRw defs st (secs sid) = true then endRwLoad defs st else st) := by
+    split
+    · exact endRwLoad_inv defs st h
+    · exact h
+  generalize (if shouldEndRw defs st (secs sid) = true then endRwLoad defs st else st) = st1 at h1 ⊢
+  apply OInv.extend h1 rfl (locEvents_trace _)
+  · intro id
+    rw [show [Event.section sid] ++ secondaries.map Event.section = (sid :: secondaries).map Event.section from rfl]
+    exact trace_sections id _
+  · exact (addSel_counts defs partialObj (secs sid) st1 0 _ _ _ _ rfl).2.2.2
+  · intro id
+    obtain ⟨a, b, c, _⟩ := addSel_counts defs partialObj (secs sid) st1 id _ _ _ _ rfl
+    exact ⟨a, b, c⟩
+
+theorem init_inv (n : Nat) : OInv (OState.init n) := by
+  intro id
+  right; right
+  refine ⟨?_, rfl, Nat.zero_le _⟩
+  simp only [OState.init, activeIds]
+  induction n with
+  | zero => rfl
+  | succ n ih => simpa [List.replicate_succ] using ih
+
+theorem foldl_inv (defs : List SegDef) (partialObj : Bool) (secs : Nat → Sec) (calls : List (Nat × List Nat))
+    (st : OState) (h : OInv st) :
+    OInv (calls.foldl (fun st c => addSection defs partialObj secs st c.1 c.2) st) := by
+  induction calls generalizing st with
+  | nil => exact h
+  | cons c cs ih => exact ih _ (addSection_inv defs partialObj secs st c.1 c.2 h)
+
+/-- Every segment id `< n` was started once and ended once afterwards; ids `≥ n` do not occur. -/
+def Closed (evs : List Event) (n : Nat) : Prop :=
+  ∀ id, (trace id evs = [true, false] ∧ id < n) ∨ (trace id evs = [] ∧ n ≤ id)
+
+theorem trace_pair (id k : Nat) :
+    trace id [Event.segStart k, Event.segEnd k] = if k = id then [true, false] else [] := by
+  by_cases h : k = id <;> simp [trace, evTag, h]
+
+theorem buildOrder_go_closed (nCond : Nat) (n j : Nat) (ev : List Event) (sd : List Nat) (h : Closed ev sd.length) :
+    Closed (buildOrder.go nCond j n ev sd).1 (buildOrder.go nCond j n ev sd).2.length := by
+  induction n generalizing j ev sd with
+  | zero => exact h
+  | succ n ih =>
+    simp only [buildOrder.go]
+    apply ih
+    intro id
+    rw [trace_append, trace_pair]
+    simp only [List.length_append, List.length_cons, List.length_nil, Nat.zero_add]
+    rcases h id with ⟨h1, h2⟩ | ⟨h1, h2⟩
+    · left
+      rw [if_neg (by omega), h1]
+      exact ⟨rfl, by omega⟩
+    · by_cases hid : sd.length = id
+      · left; rw [if_pos hid, h1]; exact ⟨rfl, by omega⟩
+      · right; rw [if_neg hid, h1]; exact ⟨rfl, by omega⟩
+
+theorem buildOrder_closed (st : OState) (partialObj : Bool) (nCond nUncond : Nat) (h : OInv st) :
+    Closed (buildOrder st partialObj nCond nUncond).1 (buildOrder st partialObj nCond nUncond).2.length := by
+  have hc : Closed (st.events ++ (st.active.filterMap id).map Event.segEnd) st.segDefs.length := by
+    intro id
+    rw [trace_append, trace_ends]
+    rcases h id with ⟨h1, h2, h3⟩ | ⟨h1, h2, h3⟩ | ⟨h1, h2, h3⟩
+    · left; unfold activeIds at h1; rw [h1, h2]; exact ⟨rfl, h3⟩
+    · left; unfold activeIds at h1; rw [h1, h2]; exact ⟨rfl, h3⟩
+    · right; unfold activeIds at h1; rw [h1, h2]; exact ⟨rfl, h3⟩
+  unfold buildOrder
+  simp only
+  split
+  · exact hc
+  · exact buildOrder_go_closed _ _ _ _ _ hc
+
+theorem evTag_start (id : Nat) (e : Event) : evTag id e = some true ↔ e = Event.segStart id := by
+  cases e <;> simp [evTag]
+
+theorem evTag_end (id : Nat) (e : Event) : evTag id e = some false ↔ e = Event.segEnd id := by
+  cases e <;> simp [evTag]
+
+theorem starts_length (id : Nat) (evs : List Event) :
+    (evs.filter (· == Event.segStart id)).length = (trace id evs).count true := by
+  induction evs with
+  | nil => rfl
+  | cons e es ih =>
+    by_cases h : e = Event.segStart id
+    · subst h; simp [trace, evTag] at ih ⊢; omega
+    · have hb : (e == Event.segStart id) = false := by simpa using h
+      have ht : evTag id e ≠ some true := fun hh => h ((evTag_start id e).1 hh)
+      simp only [List.filter_cons, hb, Bool.false_eq_true, if_false, trace, List.filterMap_cons] at ih ⊢
+      cases hv : evTag id e with
+      | none => simpa using ih
+      | some b =>
+        cases b with
+        | true => exact absurd hv ht
+        | false => simpa [List.count_cons] using ih
+
+theorem ends_length (id : Nat) (evs : List Event) :
+    (evs.filter (· == Event.segEnd id)).length = (trace id evs).count false := by
+  induction evs with
+  | nil => rfl
+  | cons e es ih =>
+    by_cases h : e = Event.segEnd id
+    · subst h; simp [trace, evTag] at ih ⊢; omega
+    · have hb : (e == Event.segEnd id) = false := by simpa using h
+      have ht : evTag id e ≠ some false := fun hh => h ((evTag_end id e).1 hh)
+      simp only [List.filter_cons, hb, Bool.false_eq_true, if_false, trace, List.filterMap_cons] at ih ⊢
+      cases hv : evTag id e with
+      | none => simpa using ih
+      | some b =>
+        cases b with
+        | false => exact absurd hv ht
+        | true => simpa [List.count_cons] using ih
+
+theorem findIdx_end_isSome (id : Nat) (evs : List Event) (h : false ∈ trace id evs) :
+    ∃ j, evs.findIdx? (· == Event.segEnd id) = some j := by
+  have hm : Event.segEnd id ∈ evs := by
+    simp only [trace, List.mem_filterMap] at h
+    obtain ⟨e, he, ht⟩ := h
+    rw [(evTag_end id e).1 ht] at he; exact he
+  cases hf : evs.findIdx? (· == Event.segEnd id) with
+  | some j => exact ⟨j, rfl⟩
+  | none =>
+    rw [List.findIdx?_eq_none_iff] at hf
+    have := hf _ hm
+    simp at this
+
+/-- The first start of `id` precedes its first end when the history of `id` is start, end. -/
+theorem start_before_end (id : Nat) (evs : List Event) (h : trace id evs = [true, false]) :
+    ∃ i j, evs.findIdx? (· == Event.segStart id) = some i ∧ evs.findIdx? (· == Event.segEnd id) = some j ∧
+      i < j := by
+  induction evs with
+  | nil => simp [trace] at h
+  | cons e es ih =>
+    simp only [trace, List.filterMap_cons] at h
+    cases hv : evTag id e with
+    | none =>
+      rw [hv] at h
+      obtain ⟨i, j, h1, h2, h3⟩ := ih h
+      have hs : (e == Event.segStart id) = false := by
+        cases hb : (e == Event.segStart id) with
+        | false => rfl
+        | true => rw [(evTag_start id e).2 (by simpa using hb)] at hv; cases hv
+      have he : (e == Event.segEnd id) = false := by
+        cases hb : (e == Event.segEnd id) with
+        | false => rfl
+        | true => rw [(evTag_end id e).2 (by simpa using hb)] at hv; cases hv
+      refine ⟨i + 1, j + 1, ?_, ?_, by omega⟩
+      · rw [List.findIdx?_cons, hs, h1]; rfl
+      · rw [List.findIdx?_cons, he, h2]; rfl
+    | some b =>
+      rw [hv] at h
+      simp only [List.cons.injEq] at h
+      obtain ⟨hb, ht⟩ := h
+      subst hb
+      have hes : e = Event.segStart id := (evTag_start id e).1 hv
+      subst hes
+      obtain ⟨j, hj⟩ := findIdx_end_isSome id es (by rw [show trace id es = _ from ht]; simp)
+      refine ⟨0, j + 1, ?_, ?_, by omega⟩
+      · simp [List.findIdx?_cons]
+      · rw [List.findIdx?_cons, hj]; simp
+
+theorem closed_wellBracketed (evs : List Event) (n : Nat) (h : Closed evs n) : wellBracketedB evs n = true := by
+  unfold wellBracketedB
+  rw [List.all_eq_true]
+  intro id hid
+  have hid' : id < n := by simpa using hid
+  have ht : trace id evs = [true, false] := by
+    rcases h id with ⟨h1, _⟩ | ⟨_, h2⟩
+    · exact h1
+    · omega
+  obtain ⟨i, j, hi, hj, hij⟩ := start_before_end id evs ht
+  simp only [starts_length, ends_length, ht, hi, hj, Option.getD_some, Bool.and_eq_true, beq_iff_eq,
+    decide_eq_true_eq, List.all_eq_true]
+  refine ⟨⟨⟨by simp, by simp⟩, hij⟩, ?_⟩
+  intro e he
+  cases e with
+  | segStart k =>
+    simp only [decide_eq_true_eq]
+    rcases h k with ⟨_, h2⟩ | ⟨h1, _⟩
+    · exact h2
+    · have : true ∈ trace k evs := by
+        simp only [trace, List.mem_filterMap]
+        exact ⟨_, he, (evTag_start k _).2 rfl⟩
+      rw [h1] at this; simp at this
+  | segEnd k =>
+    simp only [decide_eq_true_eq]
+    rcases h k with ⟨_, h2⟩ | ⟨h1, _⟩
+    · exact h2
+    · have : false ∈ trace k evs := by
+        simp only [trace, List.mem_filterMap]
+        exact ⟨_, he, (evTag_end k _).2 rfl⟩
+      rw [h1] at this; simp at this
+  | «section» _ => rfl
+  | setLoc _ => rfl
+
+/-- **C04 `order_wellbracketed`.** For every table of segment definitions, every section table, output kind and
+every sequence of `add_section` calls, the event list produced by the model's `OutputOrderBuilder`
+(`outputOrder` = `add_section`* then `build`) is well bracketed in the sense of `wellBracketedB`: every segment
+id below the number of created program segments is started exactly once and ended exactly once, the start
+precedes the end, and no start/end event mentions any other id. -/
+theorem order_wellbracketed (defs : List SegDef) (nUncond : Nat) (partialObj : Bool) (secs : Nat → Sec)
+    (calls : List (Nat × List Nat)) :
+    wellBracketedB (outputOrder defs nUncond partialObj secs calls).1
+      (outputOrder defs nUncond partialObj secs calls).2.length = true := by
+  unfold outputOrder
+  exact closed_wellBracketed _ _
+    (buildOrder_closed _ _ _ _ (foldl_inv defs partialObj secs calls _ (init_inv _)))
+
+/-- Sanity / non-vacuity: the ELF table, `.text`-like, `.data`-like and a non-allocated section. -/
+example :
+    let secs : Nat → Sec := fun sid =>
+      if sid = 0 then { (default : Sec) with alloc := true, x := true, aux := List.replicate 13 false }
+      else if sid = 1 then { (default : Sec) with alloc := true, w := true, aux := List.replicate 13 false }
+      else { (default : Sec) with aux := List.replicate 13 false }
+    outputOrder elfDefs 1 false secs [(0, []), (1, []), (2, [])] =
+      ([.segStart 0, .section 0, .segEnd 0, .segStart 1, .section 1, .segEnd 1, .section 2, .segStart 2, .segEnd 2],
+       [5, 6, 13]) := by
+  decide
+
+/-! ## LOAD segments over the whole event walk: `p_offset ≡ p_vaddr (mod p_align)` -/
+
+theorem layoutWalk_append (cfg : Config) (il : Nat → Bool) (sa : List (Nat × Nat)) (secs : Nat → Sec)
+    (c : Cursor) (a b : List Event) :
+    layoutWalk cfg il sa secs c (a ++ b) =
+      ((layoutWalk cfg il sa secs (layoutWalk cfg il sa secs c a).1 b).1,
+       (layoutWalk cfg il sa secs c a).2 ++ (layoutWalk cfg il sa secs (layoutWalk cfg il sa secs c a).1 b).2) := by
+  induction a generalizing c with
+  | nil => simp [layoutWalk]
+  | cons e es ih =>
+    simp only [List.cons_append, layoutWalk, ih]
+    cases (layoutStep cfg il sa secs c e).2 <;> simp
+
+/-- What may happen between the start and the end of a LOAD segment for the congruence argument: no other LOAD
+segment starts; every section is allocated, has file contents (`hasData`, the hypothesis of
+`load_run_displacement`; false for `.bss`-like NOBITS sections), carries no user location and its alignment does
+not exceed the segment alignment exponent `S`. -/
+def bodyOk (il : Nat → Bool) (secs : Nat → Sec) (S : Nat) (e : Event) : Bool :=
+  match e with
+  | .segStart j => !il j
+  | .section sid =>
+    (secs sid).alloc && (secs sid).hasData && (secs sid).loc.isNone && decide (maxAlignment (secs sid) ≤ S)
+  | _ => true
+
+theorem placeParts_align_le (cfg : Config) (s : Sec) (rp : Bool) (m : Nat) (st : PartState) (ps : List PartIn) :
+    ∀ r ∈ (placeParts cfg s rp m st ps).2, r.align ≤ m := by
+  induction ps generalizing st with
+  | nil => intro r hr; simp [placeParts] at hr
+  | cons p ps ih =>
+    intro r hr
+    simp only [placeParts, List.mem_cons] at hr
+    rcases hr with h | h
+    · rw [h]; unfold placePart; simp only; split
+      · split <;> exact Nat.min_le_right _ _
+      · exact Nat.min_le_right _ _
+    · exact ih _ r h
+
+/-- **Whole-run composition of `load_run_displacement`.** Walking any event list satisfying `bodyOk` from a
+cursor with displacement `(F, M)` (`mem + F = file + M`, `F ≡ M (mod 2^S)`): every part record produced has
+that displacement and alignment `≤ S`, and the cursor keeps it. -/
+theorem region_displacement (cfg : Config) (il : Nat → Bool) (sa : List (Nat × Nat)) (secs : Nat → Sec)
+    (S F M : Nat) (hp : cfg.partialObj = false) (hFM : F % 2 ^ S = M % 2 ^ S)
+    (body : List Event) (c : Cursor) (hc : c.mem + F = c.file + M)
+    (hb : ∀ e ∈ body, bodyOk il secs S e = true) :
+    (∀ pr ∈ (layoutWalk cfg il sa secs c body).2, ∀ r ∈ pr.2, r.memOff + F = r.fileOff + M ∧ r.align ≤ S) ∧
+    (layoutWalk cfg il sa secs c body).1.mem + F = (layoutWalk cfg il sa secs c body).1.file + M := by
+  induction body generalizing c with
+  | nil => exact ⟨by simp [layoutWalk], hc⟩
+  | cons e es ih =>
+    have he := hb e List.mem_cons_self
+    have hes : ∀ e' ∈ es, bodyOk il secs S e' = true := fun e' h' => hb e' (List.mem_cons_of_mem _ h')
+    simp only [layoutWalk]
+    cases e with
+    | setLoc a =>
+      simp only [layoutStep]
+      exact ih _ hc hes
+    | segEnd j =>
+      simp only [layoutStep]
+      exact ih _ hc hes
+    | segStart j =>
+      have hj : il j = false := by simpa [bodyOk] using he
+      simp only [layoutStep, hj, Bool.false_eq_true, if_false]
+      exact ih _ hc hes
+    | «section» sid =>
+      simp only [bodyOk, Bool.and_eq_true, decide_eq_true_eq, Option.isNone_iff_eq_none] at he
+      obtain ⟨⟨⟨ha, hd⟩, hloc⟩, hm⟩ := he
+      simp only [layoutStep, hloc]
+      have hrun := load_run_displacement cfg (secs sid) (sid == cfg.relroPad) (maxAlignment (secs sid)) S F M
+        { file := c.file, mem := c.mem, nonalloc := 0, reloc := 0 } (secs sid).parts hp ha hd
+        (fun p _ => Nat.le_trans (Nat.min_le_right _ _) hm) hFM hc
+      have hal := placeParts_align_le cfg (secs sid) (sid == cfg.relroPad) (maxAlignment (secs sid))
+        { file := c.file, mem := c.mem, nonalloc := 0, reloc := 0 } (secs sid).parts
+      have hrest := ih { c with file := _, mem := _ } hrun.2 hes
+      refine ⟨?_, hrest.2⟩
+      intro pr hpr
+      rcases List.mem_cons.1 hpr with rfl | h
+      · intro r hr
+        exact ⟨hrun.1 r hr, Nat.le_trans (hal r hr) hm⟩
+      · exact hrest.1 pr h
+
+/-- "Good or top": a pair (file start, address start) is either the initial `(u64::MAX, u64::MAX)` of a hull
+computation or has the displacement `(F, M)` and is in range. -/
+def GT (F M x y : Nat) : Prop :=
+  (x = u64Max ∧ y = u64Max) ∨ (y + F = x + M ∧ x ≤ u64Max ∧ y ≤ u64Max)
+
+theorem GT.min {F M x y x' y' : Nat} (h : GT F M x y) (h' : GT F M x' y') :
+    GT F M (min x x') (min y y') := by
+  unfold GT at *
+  rcases h with ⟨h1, h2⟩ | ⟨h1, h2, h3⟩ <;> rcases h' with ⟨h1', h2'⟩ <;> omega
+
+/-- Whole-section composition of `hull_congruent`: the `layout_sections` hull of parts that share a
+displacement is good or top, and its alignment is bounded by `S`. -/
+theorem sectionLayout_good (F M S minAlign : Nat) (parts : List Rec) (hmin : minAlign ≤ S)
+    (h : ∀ r ∈ parts, (r.memOff + F = r.fileOff + M ∧ r.align ≤ S) ∧ r.fileOff ≤ u64Max ∧ r.memOff ≤ u64Max) :
+    GT F M (sectionLayout minAlign parts).fileOff (sectionLayout minAlign parts).memOff ∧
+    (sectionLayout minAlign parts).align ≤ S := by
+  unfold sectionLayout
+  simp only
+  have key : ∀ (l : List Rec) (f0 m0 a0 : Nat), GT F M f0 m0 → a0 ≤ S →
+      (∀ r ∈ l, (r.memOff + F = r.fileOff + M ∧ r.align ≤ S) ∧ r.fileOff ≤ u64Max ∧ r.memOff ≤ u64Max) →
+      GT F M (l.foldl (fun a p => min a p.fileOff) f0) (l.foldl (fun a p => min a p.memOff) m0) ∧
+      l.foldl (fun a p => if p.memSize > 0 then max a p.align else a) a0 ≤ S := by
+    intro l
+    induction l with
+    | nil => intro f0 m0 a0 h0 ha _; exact ⟨h0, ha⟩
+    | cons r rs ih =>
+      intro f0 m0 a0 h0 ha hl
+      simp only [List.foldl_cons]
+      have hr := hl r List.mem_cons_self
+      apply ih
+      · exact GT.min h0 (Or.inr ⟨hr.1.1, hr.2.1, hr.2.2⟩)
+      · split
+        · exact Nat.max_le.2 ⟨ha, hr.1.2⟩
+        · exact ha
+      · intro q hq; exact hl q (List.mem_cons_of_mem _ hq)
+  exact key parts u64Max u64Max minAlign (Or.inl ⟨rfl, rfl⟩) hmin h
+
+/-! ### `compute_segment_layout`: the record of a LOAD segment over its whole run -/
+
+def RecInv (F M S : Nat) (r : SegRec) : Prop := GT F M r.fileStart r.memStart ∧ r.align ≤ S
+
+theorem RecInv.absorb {F M S : Nat} {r : SegRec} {l : Rec} (h : RecInv F M S r)
+    (hl : GT F M l.fileOff l.memOff ∧ l.align ≤ S) : RecInv F M S (r.absorb l) := by
+  unfold RecInv SegRec.absorb
+  exact ⟨GT.min h.1 hl.1, Nat.max_le.2 ⟨h.2, hl.2⟩⟩
+
+/-- the record that `SegmentEnd id` would complete -/
+def cur (id : Nat) (st : SegState) : Option SegRec := st.active.find? (·.id == id)
+
+theorem find?_filter_ne (id j : Nat) (hne : j ≠ id) (l : List SegRec) :
+    (l.filter (·.id != j)).find? (·.id == id) = l.find? (·.id == id) := by
+  induction l with
+  | nil => rfl
+  | cons a l ih =>
+    by_cases ha : a.id = j
+    · have h1 : (a.id != j) = false := by simp [ha]
+      have h2 : (a.id == id) = false := by simp [ha, hne]
+      simp only [List.filter_cons, h1, Bool.false_eq_true, if_false, List.find?_cons, h2, ih]
+    · have h1 : (a.id != j) = true := by simp [ha]
+      simp only [List.filter_cons, h1, if_true, List.find?_cons, ih]
+
+theorem find?_filter_self (id : Nat) (l : List SegRec) :
+    (l.filter (·.id != id)).find? (·.id == id) = none := by
+  rw [List.find?_eq_none]
+  intro a ha
+  have := (List.mem_filter.1 ha).2
+  simpa using this
+
+theorem find?_map_absorb (id : Nat) (x : Rec) (l : List SegRec) :
+    (l.map (·.absorb x)).find? (·.id == id) = (l.find? (·.id == id)).map (·.absorb x) := by
+  induction l with
+  | nil => rfl
+  | cons a l ih =>
+    simp only [List.map_cons, List.find?_cons]
+    have : (a.absorb x).id = a.id := rfl
+    rw [this]
+    cases a.id == id <;> simp [ih]
+
+/-- events inside the run of LOAD segment `id` as far as `compute_segment_layout` is concerned: not a start or
+end of `id` itself, and every section's layout is good-or-top with alignment `≤ S` -/
+def SegBodyOk (F M S id : Nat) (lay : Nat → Rec) (e : Event) : Prop :=
+  e ≠ Event.segStart id ∧ e ≠ Event.segEnd id ∧
+    ∀ sid, e = Event.section sid → GT F M (lay sid).fileOff (lay sid).memOff ∧ (lay sid).align ≤ S
+
+theorem segStep_track (cfg : Config) (isStack : Nat → Bool) (secs : Nat → Sec) (lay : Nat → Rec) (fh : Nat)
+    (F M S id : Nat) (st st' : SegState) (e : Event) (he : SegBodyOk F M S id lay e)
+    (hs : segStep cfg isStack secs lay fh st e = .ok st') (r : SegRec)
+    (hr : cur id st = some r) (hi : RecInv F M S r) :
+    ∃ r', cur id st' = some r' ∧ RecInv F M S r' := by
+  obtain ⟨h1, h2, h3⟩ := he
+  cases e with
+  | setLoc a =>
+    simp only [segStep, Except.ok.injEq] at hs
+    subst hs; exact ⟨r, hr, hi⟩
+  | segStart j =>
+    have hj : j ≠ id := fun h => h1 (by rw [h])
+    simp only [segStep, Except.ok.injEq] at hs
+    subst hs
+    refine ⟨r, ?_, hi⟩
+    unfold cur at hr ⊢
+    simp only [List.find?_append, find?_filter_ne id j hj, hr, Option.some_or]
+  | segEnd j =>
+    have hj : j ≠ id := fun h => h2 (by rw [h])
+    simp only [segStep] at hs
+    split at hs
+    · cases hs
+    · simp only [Except.ok.injEq] at hs
+      subst hs
+      refine ⟨r, ?_, hi⟩
+      unfold cur at hr ⊢
+      simp only [find?_filter_ne id j hj, hr]
+  | «section» sid =>
+    have hl := h3 sid rfl
+    simp only [segStep] at hs
+    split at hs
+    · simp only [Except.ok.injEq] at hs; subst hs; exact ⟨r, hr, hi⟩
+    · split at hs
+      · split at hs
+        · cases hs
+        · split at hs
+          · cases hs
+          · simp only [Except.ok.injEq] at hs; subst hs; exact ⟨r, hr, hi⟩
+      · split at hs
+        · cases hs
+        · split at hs
+          · cases hs
+          · simp only [Except.ok.injEq] at hs
+            subst hs
+            refine ⟨r.absorb (lay sid), ?_, hi.absorb hl⟩
+            unfold cur at hr ⊢
+            simp only [find?_map_absorb, hr, Option.map_some]
+
+theorem segLoop_cons_ok (cfg : Config) (isStack : Nat → Bool) (secs : Nat → Sec) (lay : Nat → Rec) (fh : Nat)
+    (st st' : SegState) (e : Event) (es : List Event) :
+    segLoop cfg isStack secs lay fh st (e :: es) = .ok st' ↔
+      ∃ st1, segStep cfg isStack secs lay fh st e = .ok st1 ∧ segLoop cfg isStack secs lay fh st1 es = .ok st' := by
+  simp only [segLoop]
+  cases segStep cfg isStack secs lay fh st e with
+  | error err => simp
+  | ok st1 => simp
+
+theorem segLoop_append_ok (cfg : Config) (isStack : Nat → Bool) (secs : Nat → Sec) (lay : Nat → Rec) (fh : Nat)
+    (st st' : SegState) (a b : List Event) :
+    segLoop cfg isStack secs lay fh st (a ++ b) = .ok st' ↔
+      ∃ st1, segLoop cfg isStack secs lay fh st a = .ok st1 ∧ segLoop cfg isStack secs lay fh st1 b = .ok st' := by
+  induction a generalizing st with
+  | nil => simp [segLoop]
+  | cons e es ih =>
+    simp only [List.cons_append, segLoop_cons_ok, ih]
+    constructor
+    · rintro ⟨s1, h1, s2, h2, h3⟩; exact ⟨s2, ⟨s1, h1, h2⟩, h3⟩
+    · rintro ⟨s2, ⟨s1, h1, h2⟩, h3⟩; exact ⟨s1, h1, s2, h2, h3⟩
+
+theorem segLoop_track (cfg : Config) (isStack : Nat → Bool) (secs : Nat → Sec) (lay : Nat → Rec) (fh : Nat)
+    (F M S id : Nat) (body : List Event) (st st' : SegState)
+    (hb : ∀ e ∈ body, SegBodyOk F M S id lay e)
+    (hs : segLoop cfg isStack secs lay fh st body = .ok st') (r : SegRec)
+    (hr : cur id st = some r) (hi : RecInv F M S r) :
+    ∃ r', cur id st' = some r' ∧ RecInv F M S r' := by
+  induction body generalizing st r with
+  | nil =>
+    simp only [segLoop, Except.ok.injEq] at hs
+    subst hs; exact ⟨r, hr, hi⟩
+  | cons e es ih =>
+    obtain ⟨st1, h1, h2⟩ := (segLoop_cons_ok ..).1 hs
+    obtain ⟨r1, hr1, hi1⟩ := segStep_track cfg isStack secs lay fh F M S id st st1 e
+      (hb e List.mem_cons_self) h1 r hr hi
+    exact ih st1 (fun e' h' => hb e' (List.mem_cons_of_mem _ h')) h2 r1 hr1 hi1
+
+theorem segStep_complete_mono (cfg : Config) (isStack : Nat → Bool) (secs : Nat → Sec) (lay : Nat → Rec) (fh : Nat)
+    (st st' : SegState) (e : Event) (hs : segStep cfg isStack secs lay fh st e = .ok st') :
+    ∀ r ∈ st.complete, r ∈ st'.complete := by
+  intro r hr
+  cases e with
+  | setLoc a => simp only [segStep, Except.ok.injEq] at hs; subst hs; exact hr
+  | segStart j => simp only [segStep, Except.ok.injEq] at hs; subst hs; exact hr
+  | segEnd j =>
+    simp only [segStep] at hs
+    split at hs
+    · cases hs
+    · simp only [Except.ok.injEq] at hs; subst hs; exact List.mem_append_left _ hr
+  | «section» sid =>
+    simp only [segStep] at hs
+    repeat' split at hs
+    all_goals (cases hs; try exact hr)
+
+theorem segLoop_complete_mono (cfg : Config) (isStack : Nat → Bool) (secs : Nat → Sec) (lay : Nat → Rec) (fh : Nat)
+    (es : List Event) (st st' : SegState) (hs : segLoop cfg isStack secs lay fh st es = .ok st') :
+    ∀ r ∈ st.complete, r ∈ st'.complete := by
+  induction es generalizing st with
+  | nil => simp only [segLoop, Except.ok.injEq] at hs; subst hs; exact fun r h => h
+  | cons e es ih =>
+    obtain ⟨st1, h1, h2⟩ := (segLoop_cons_ok ..).1 hs
+    intro r hr
+    exact ih st1 h2 r (segStep_complete_mono cfg isStack secs lay fh st st1 e h1 r hr)
+
+/-- **The record completed for a LOAD run.** If the event list is `pre ++ SegmentStart id :: body ++ SegmentEnd id
+:: post`, `id` is not the stack segment, and inside `body` neither `id` is started/ended again nor a section
+layout is off the displacement `(F, M)`, then `compute_segment_layout`'s main loop completes a record for `id`
+whose start pair is good-or-top and whose alignment is `≤ S`. -/
+theorem segLoop_region (cfg : Config) (isStack : Nat → Bool) (secs : Nat → Sec) (lay : Nat → Rec) (fh : Nat)
+    (F M S id : Nat) (pre body post : List Event) (stf : SegState) (hstack : isStack id = false)
+    (hb : ∀ e ∈ body, SegBodyOk F M S id lay e)
+    (hs : segLoop cfg isStack secs lay fh ⟨[], []⟩ (pre ++ Event.segStart id :: (body ++ Event.segEnd id :: post)) = .ok stf) :
+    ∃ r ∈ stf.complete, r.id = id ∧ RecInv F M S r := by
+  obtain ⟨st0, _, h1⟩ := (segLoop_append_ok ..).1 hs
+  obtain ⟨st1, h2, h3⟩ := (segLoop_cons_ok ..).1 h1
+  obtain ⟨st2, h4, h5⟩ := (segLoop_append_ok ..).1 h3
+  obtain ⟨st3, h6, h7⟩ := (segLoop_cons_ok ..).1 h5
+  simp only [segStep, hstack, Bool.false_eq_true, if_false, Except.ok.injEq] at h2
+  have hcur1 : cur id st1 = some ⟨id, u64Max, 0, u64Max, 0, 0⟩ := by
+    subst h2
+    unfold cur
+    rw [List.find?_append, find?_filter_self]
+    simp
+  have hinv1 : RecInv F M S ⟨id, u64Max, 0, u64Max, 0, 0⟩ := ⟨Or.inl ⟨rfl, rfl⟩, Nat.zero_le _⟩
+  obtain ⟨r, hr, hi⟩ := segLoop_track cfg isStack secs lay fh F M S id body st1 st2 hb h4 _ hcur1 hinv1
+  have hid : r.id = id := by
+    unfold cur at hr
+    have := List.find?_some hr
+    simpa using this
+  simp only [segStep] at h6
+  unfold cur at hr
+  rw [hr] at h6
+  simp only [Except.ok.injEq] at h6
+  have hmem : r ∈ st3.complete := by subst h6; simp
+  exact ⟨r, segLoop_complete_mono cfg isStack secs lay fh post st3 stf h7 r hmem, hid, hi⟩
+
+/-- A good-or-top record is congruent modulo every power of two up to `2^S`. -/
+theorem RecInv.congruent {F M S : Nat} {r : SegRec} (h : RecInv F M S r) (hFM : F % 2 ^ S = M % 2 ^ S)
+    (e : Nat) (he : e ≤ S) : r.fileStart % 2 ^ e = r.memStart % 2 ^ e := by
+  rcases h.1 with ⟨h1, h2⟩ | ⟨h1, _, _⟩
+  · rw [h1, h2]
+  · exact (cong_of_disp (Nat.two_pow_pos e) h1 (mod_pow_of_mod_pow he hFM)).symm
+
+/-! ### Gluing the two passes -/
+
+def secId (e : Event) : Option Nat :=
+  match e with
+  | .section sid => some sid
+  | _ => none
+
+theorem layoutWalk_cons_none (cfg : Config) (il : Nat → Bool) (sa : List (Nat × Nat)) (secs : Nat → Sec)
+    (c : Cursor) (e : Event) (es : List Event) (h : (layoutStep cfg il sa secs c e).2 = none) :
+    layoutWalk cfg il sa secs c (e :: es) = layoutWalk cfg il sa secs (layoutStep cfg il sa secs c e).1 es := by
+  simp only [layoutWalk, h]
+
+theorem layoutStep_key (cfg : Config) (il : Nat → Bool) (sa : List (Nat × Nat)) (secs : Nat → Sec)
+    (c : Cursor) (e : Event) : (layoutStep cfg il sa secs c e).2.map (·.1) = secId e := by
+  cases e with
+  | setLoc a => rfl
+  | segEnd j => rfl
+  | segStart j =>
+    simp only [layoutStep, secId]
+    split
+    · split <;> rfl
+    · rfl
+  | «section» sid => rfl
+
+theorem layoutWalk_keys (cfg : Config) (il : Nat → Bool) (sa : List (Nat × Nat)) (secs : Nat → Sec)
+    (c : Cursor) (es : List Event) :
+    (layoutWalk cfg il sa secs c es).2.map (·.1) = es.filterMap secId := by
+  induction es generalizing c with
+  | nil => rfl
+  | cons e es ih =>
+    simp only [layoutWalk]
+    have hk := layoutStep_key cfg il sa secs c e
+    cases ho : (layoutStep cfg il sa secs c e).2 with
+    | none =>
+      rw [ho] at hk
+      simp only [Option.map_none] at hk
+      rw [List.filterMap_cons_none hk.symm]
+      exact ih _
+    | some pr =>
+      rw [ho] at hk
+      simp only [Option.map_some] at hk
+      rw [List.filterMap_cons_some hk.symm]
+      simp only [List.map_cons, ih]
+
+theorem lookup_of_mem_nodup {β : Type} (l : List (Nat × β)) (k : Nat) (v : β)
+    (hnd : (l.map (·.1)).Nodup) (hm : (k, v) ∈ l) : l.lookup k = some v := by
+  induction l with
+  | nil => cases hm
+  | cons a l ih =>
+    obtain ⟨k', v'⟩ := a
+    simp only [List.map_cons, List.nodup_cons] at hnd
+    rcases List.mem_cons.1 hm with h | h
+    · injection h with h1 h2; subst h1; subst h2; simp [List.lookup_cons]
+    · have hne : k ≠ k' := by
+        intro heq; subst heq
+        exact hnd.1 (List.mem_map.2 ⟨(k, v), h, rfl⟩)
+      have : (k == k') = false := by simpa using hne
+      simp only [List.lookup_cons, this]
+      exact ih hnd.2 h
+
+/-- the section layouts that `layout_sections` derives from the part records -/
+def layOf (secs : Nat → Sec) (parts : List (Nat × List Rec)) (sid : Nat) : Rec :=
+  sectionLayout (secs sid).minAlign ((parts.lookup sid).getD [])
+
+theorem minAlign_le_maxAlignment (s : Sec) : s.minAlign ≤ maxAlignment s := by
+  unfold maxAlignment; exact Nat.le_max_right _ _
+
+/-- **C04 `load_congruent` over the whole event walk** (composition of `load_start_congruent`,
+`load_run_displacement`, `hull_congruent`). Let the event list be
+`pre ++ SegmentStart id :: body ++ SegmentEnd id :: post` with `id` a LOAD segment (not the stack segment), let
+`S` be the alignment exponent `compute_segment_alignments` assigns to `id`. Hypotheses:
+* `hp` executable / shared object (not `-r`);
+* `hbody` inside the run (`bodyOk`): no other LOAD segment starts, every section is allocated, has file contents
+  (`hasData`; necessary, see `load_offsets_witness`), has no user location, and `max_alignment ≤ S`; `id` itself
+  is not started or ended again;
+* `hpage` `page ≤ S` (both this and `max_alignment ≤ S` are what `compute_segment_alignments` is meant to
+  establish; they are hypotheses here);
+* `hnodup` every section id occurs in at most one `Section` event;
+* `hfits` no part offset exceeds `u64::MAX` (the standing no-overflow hypothesis of the `Nat` model);
+* `hs` the main loop of `compute_segment_layout` succeeds on the section layouts derived from the parts.
+Then the loop completes a record for `id`, and that record satisfies
+`p_offset % p_align = p_vaddr % p_align` with `p_align = 2^max(record alignment, page)` (`phdrAlign`). -/
+theorem load_segment_congruent (cfg : Config) (il isStack : Nat → Bool) (secs : Nat → Sec) (fh id : Nat)
+    (pre body post : List Event) (stf : SegState)
+    (hp : cfg.partialObj = false) (hl : il id = true) (hstack : isStack id = false)
+    (hpage : cfg.page ≤ ((segmentAlignments il secs cfg.page
+      (pre ++ Event.segStart id :: (body ++ Event.segEnd id :: post))).lookup id).getD cfg.page)
+    (hbody : ∀ e ∈ body, bodyOk il secs (((segmentAlignments il secs cfg.page
+        (pre ++ Event.segStart id :: (body ++ Event.segEnd id :: post))).lookup id).getD cfg.page) e = true ∧
+      e ≠ Event.segStart id ∧ e ≠ Event.segEnd id)
+    (hnodup : ((pre ++ Event.segStart id :: (body ++ Event.segEnd id :: post)).filterMap secId).Nodup)
+    (hfits : ∀ r ∈ allRecs (layoutParts cfg il secs (pre ++ Event.segStart id :: (body ++ Event.segEnd id :: post))),
+      r.fileOff ≤ u64Max ∧ r.memOff ≤ u64Max)
+    (hs : segLoop cfg isStack secs
+      (layOf secs (layoutParts cfg il secs (pre ++ Event.segStart id :: (body ++ Event.segEnd id :: post)))) fh
+      ⟨[], []⟩ (pre ++ Event.segStart id :: (body ++ Event.segEnd id :: post)) = .ok stf) :
+    ∃ r ∈ stf.complete, r.id = id ∧
+      r.fileStart % 2 ^ (max r.align cfg.page) = r.memStart % 2 ^ (max r.align cfg.page) := by
+  generalize hevs : pre ++ Event.segStart id :: (body ++ Event.segEnd id :: post) = evs at *
+  generalize hsa : segmentAlignments il secs cfg.page evs = sa at *
+  generalize hS : (sa.lookup id).getD cfg.page = S at *
+  -- the walk, split at the LOAD start
+  obtain ⟨c0, hc0⟩ : ∃ c0, (layoutWalk cfg il sa secs { file := 0, mem := cfg.base, pending := none } pre).1 = c0 :=
+    ⟨_, rfl⟩
+  obtain ⟨c1, hc1⟩ : ∃ c1, (layoutStep cfg il sa secs c0 (Event.segStart id)).1 = c1 := ⟨_, rfl⟩
+  have hFM : c1.file % 2 ^ S = c1.mem % 2 ^ S := by
+    have := load_start_congruent cfg il sa secs c0 id hl
+    rw [hS, hc1] at this; exact this
+  have hreg := region_displacement cfg il sa secs S c1.file c1.mem hp hFM body c1 (Nat.add_comm _ _)
+    (fun e he => (hbody e he).1)
+  have hparts : layoutParts cfg il secs evs =
+      (layoutWalk cfg il sa secs { file := 0, mem := cfg.base, pending := none } pre).2 ++
+      ((layoutWalk cfg il sa secs c1 body).2 ++
+        (layoutWalk cfg il sa secs (layoutWalk cfg il sa secs c1 body).1 (Event.segEnd id :: post)).2) := by
+    have hnone : (layoutStep cfg il sa secs c0 (Event.segStart id)).2 = none := by
+      simp only [layoutStep, hl, if_true]; split <;> rfl
+    unfold layoutParts
+    simp only [hsa]
+    rw [← hevs, layoutWalk_append]
+    simp only [hc0]
+    rw [layoutWalk_cons_none cfg il sa secs c0 _ _ hnone, hc1, layoutWalk_append]
+  have hkeys : ((layoutParts cfg il secs evs).map (·.1)).Nodup := by
+    unfold layoutParts
+    rw [layoutWalk_keys]; exact hnodup
+  -- every section of the body has a good-or-top layout
+  have hlay : ∀ e ∈ body, SegBodyOk c1.file c1.mem S id (layOf secs (layoutParts cfg il secs evs)) e := by
+    intro e he
+    obtain ⟨hok, hne1, hne2⟩ := hbody e he
+    refine ⟨hne1, hne2, ?_⟩
+    intro sid hsid
+    subst hsid
+    have hmemk : sid ∈ ((layoutWalk cfg il sa secs c1 body).2.map (·.1)) := by
+      rw [layoutWalk_keys]
+      exact List.mem_filterMap.2 ⟨_, he, rfl⟩
+    obtain ⟨pr, hpr, hprk⟩ := List.mem_map.1 hmemk
+    obtain ⟨k, rs⟩ := pr
+    simp only at hprk
+    subst hprk
+    have hin : (k, rs) ∈ layoutParts cfg il secs evs := by
+      rw [hparts]; exact List.mem_append_right _ (List.mem_append_left _ hpr)
+    have hlook := lookup_of_mem_nodup _ k rs hkeys hin
+    unfold layOf
+    rw [hlook]
+    simp only [Option.getD_some]
+    simp only [bodyOk, Bool.and_eq_true, decide_eq_true_eq] at hok
+    apply sectionLayout_good c1.file c1.mem S _ rs (Nat.le_trans (minAlign_le_maxAlignment _) hok.2)
+    intro r hr
+    refine ⟨hreg.1 (k, rs) hpr r hr, ?_⟩
+    apply hfits r
+    unfold allRecs
+    exact List.mem_flatMap.2 ⟨(k, rs), hin, hr⟩
+  rw [← hevs] at hs
+  obtain ⟨r, hr, hid, hinv⟩ := segLoop_region cfg isStack secs _ fh c1.file c1.mem S id pre body post stf hstack
+    (by rw [hevs]; exact hlay) hs
+  refine ⟨r, hr, hid, ?_⟩
+  exact hinv.congruent hFM _ (Nat.max_le.2 ⟨hinv.2, hpage⟩)
+
+/-! ### `compute_segment_alignments` dominates the page size and every section of the run -/
+
+theorem lookup_map_val (g : Nat → Nat → Nat) (id : Nat) (t : List (Nat × Nat)) :
+    (t.map (fun p => (p.1, g p.1 p.2))).lookup id = (t.lookup id).map (g id) := by
+  induction t with
+  | nil => rfl
+  | cons a t ih =>
+    obtain ⟨k, v⟩ := a
+    simp only [List.map_cons, List.lookup_cons]
+    by_cases h : id = k
+    · subst h; simp
+    · have : (id == k) = false := by simpa using h
+      simp only [this, ih]
+
+theorem segAlignStep_section (il : Nat → Bool) (secs : Nat → Sec) (page : Nat) (st : List (Nat × Nat) × List Nat)
+    (sid : Nat) :
+    segAlignStep il secs page st (.section sid) =
+      (st.1.map (fun p => (p.1, if st.2.contains p.1 then max p.2 (maxAlignment (secs sid)) else p.2)), st.2) := by
+  simp only [segAlignStep]
+  congr 1
+  apply List.map_congr_left
+  intro p _
+  obtain ⟨k, v⟩ := p
+  simp only
+  split <;> rfl
+
+/-- entries never decrease -/
+theorem segAlignStep_mono (il : Nat → Bool) (secs : Nat → Sec) (page : Nat) (st : List (Nat × Nat) × List Nat)
+    (e : Event) (id v : Nat) (h : st.1.lookup id = some v) :
+    ∃ v', (segAlignStep il secs page st e).1.lookup id = some v' ∧ v ≤ v' := by
+  cases e with
+  | setLoc a => exact ⟨v, h, Nat.le_refl _⟩
+  | segEnd j => exact ⟨v, h, Nat.le_refl _⟩
+  | segStart j =>
+    simp only [segAlignStep]
+    split
+    · split
+      · exact ⟨v, h, Nat.le_refl _⟩
+      · exact ⟨v, by simp [List.lookup_append, h], Nat.le_refl _⟩
+    · exact ⟨v, h, Nat.le_refl _⟩
+  | «section» sid =>
+    rw [segAlignStep_section]
+    simp only [lookup_map_val (fun k a => if st.2.contains k then max a (maxAlignment (secs sid)) else a), h,
+      Option.map_some]
+    refine ⟨_, rfl, ?_⟩
+    split
+    · exact Nat.le_max_left _ _
+    · exact Nat.le_refl _
+
+theorem segAlign_fold_mono (il : Nat → Bool) (secs : Nat → Sec) (page : Nat) (es : List Event)
+    (st : List (Nat × Nat) × List Nat) (id v : Nat) (h : st.1.lookup id = some v) :
+    ∃ v', (es.foldl (segAlignStep il secs page) st).1.lookup id = some v' ∧ v ≤ v' := by
+  induction es generalizing st v with
+  | nil => exact ⟨v, h, Nat.le_refl _⟩
+  | cons e es ih =>
+    obtain ⟨v1, h1, hle1⟩ := segAlignStep_mono il secs page st e id v h
+    obtain ⟨v2, h2, hle2⟩ := ih _ v1 h1
+    exact ⟨v2, h2, Nat.le_trans hle1 hle2⟩
+
+/-- all entries are at least the page exponent -/
+def AllGe (page : Nat) (t : List (Nat × Nat)) : Prop := ∀ k v, t.lookup k = some v → page ≤ v
+
+theorem segAlignStep_allGe (il : Nat → Bool) (secs : Nat → Sec) (page : Nat) (st : List (Nat × Nat) × List Nat)
+    (e : Event) (h : AllGe page st.1) : AllGe page (segAlignStep il secs page st e).1 := by
+  cases e with
+  | setLoc a => exact h
+  | segEnd j => exact h
+  | segStart j =>
+    simp only [segAlignStep]
+    split
+    · split
+      · exact h
+      · intro k v hk
+        simp only [List.lookup_append] at hk
+        cases hl : st.1.lookup k with
+        | some w => rw [hl] at hk; simp at hk; subst hk; exact h k w hl
+        | none =>
+          rw [hl] at hk
+          simp only [Option.none_or, List.lookup_cons, List.lookup_nil] at hk
+          split at hk
+          · injection hk with hk; omega
+          · cases hk
+    · exact h
+  | «section» sid =>
+    rw [segAlignStep_section]
+    intro k v hk
+    simp only [lookup_map_val (fun k a => if st.2.contains k then max a (maxAlignment (secs sid)) else a)] at hk
+    cases hl : st.1.lookup k with
+    | none => rw [hl] at hk; cases hk
+    | some w =>
+      rw [hl] at hk
+      simp only [Option.map_some, Option.some.injEq] at hk
+      have := h k w hl
+      split at hk <;> omega
+
+theorem segAlign_fold_allGe (il : Nat → Bool) (secs : Nat → Sec) (page : Nat) (es : List Event)
+    (st : List (Nat × Nat) × List Nat) (h : AllGe page st.1) :
+    AllGe page (es.foldl (segAlignStep il secs page) st).1 := by
+  induction es generalizing st with
+  | nil => exact h
+  | cons e es ih => exact ih _ (segAlignStep_allGe il secs page st e h)
+
+/-- while `id` is active and not ended, it stays active and keeps an entry -/
+theorem segAlign_fold_active (il : Nat → Bool) (secs : Nat → Sec) (page : Nat) (id : Nat) (es : List Event)
+    (st : List (Nat × Nat) × List Nat) (hne : ∀ e ∈ es, e ≠ Event.segEnd id) (hact : id ∈ st.2) :
+    id ∈ (es.foldl (segAlignStep il secs page) st).2 := by
+  induction es generalizing st with
+  | nil => exact hact
+  | cons e es ih =>
+    apply ih _ (fun e' h' => hne e' (List.mem_cons_of_mem _ h'))
+    have he := hne e List.mem_cons_self
+    cases e with
+    | setLoc a => exact hact
+    | segEnd j =>
+      simp only [segAlignStep, List.mem_filter]
+      refine ⟨hact, ?_⟩
+      have : id ≠ j := fun h => he (by rw [h])
+      simpa using this
+    | segStart j =>
+      simp only [segAlignStep]
+      split
+      · exact List.mem_append_left _ hact
+      · exact hact
+    | «section» sid => rw [segAlignStep_section]; exact hact
+
+/-- **`compute_segment_alignments` establishes the two alignment hypotheses of `load_segment_congruent`.** -/
+theorem segmentAlignments_ge (il : Nat → Bool) (secs : Nat → Sec) (page id : Nat) (pre body rest : List Event)
+    (hl : il id = true) (hne : ∀ e ∈ body, e ≠ Event.segEnd id) :
+    let S := ((segmentAlignments il secs page (pre ++ Event.segStart id :: (body ++ rest))).lookup id).getD page
+    page ≤ S ∧ ∀ sid, Event.section sid ∈ body → maxAlignment (secs sid) ≤ S := by
+  intro S
+  have hS : S = ((((body ++ rest).foldl (segAlignStep il secs page)
+      (segAlignStep il secs page (pre.foldl (segAlignStep il secs page) ([], [])) (Event.segStart id))).1).lookup
+        id).getD page := by
+    show ((segmentAlignments il secs page _).lookup id).getD page = _
+    unfold segmentAlignments
+    rw [List.foldl_append, List.foldl_cons]
+  generalize hst0 : pre.foldl (segAlignStep il secs page) ([], []) = st0 at hS
+  have hge0 : AllGe page st0.1 := by
+    rw [← hst0]; exact segAlign_fold_allGe il secs page pre _ (by intro k v h; cases h)
+  generalize hst1 : segAlignStep il secs page st0 (Event.segStart id) = st1 at hS
+  have hge1 : AllGe page st1.1 := by rw [← hst1]; exact segAlignStep_allGe il secs page st0 _ hge0
+  have hact1 : id ∈ st1.2 := by
+    rw [← hst1]; simp only [segAlignStep, hl, if_true]; simp
+  obtain ⟨v1, hv1⟩ : ∃ v1, st1.1.lookup id = some v1 := by
+    rw [← hst1]; simp only [segAlignStep, hl, if_true]
+    split
+    · rename_i h; exact Option.isSome_iff_exists.1 h
+    · rename_i h
+      have hnone : st0.1.lookup id = none := by
+        cases hlk : st0.1.lookup id with
+        | none => rfl
+        | some w => rw [hlk] at h; simp at h
+      exact ⟨page, by simp [List.lookup_append, hnone]⟩
+  constructor
+  · obtain ⟨v, hv, hle⟩ := segAlign_fold_mono il secs page (body ++ rest) st1 id v1 hv1
+    rw [hS, hv]; simp only [Option.getD_some]
+    exact Nat.le_trans (hge1 id v1 hv1) hle
+  · intro sid hsid
+    obtain ⟨b1, b2, hb⟩ := List.append_of_mem hsid
+    rw [hS, hb, List.append_assoc, List.foldl_append, List.cons_append, List.foldl_cons]
+    have hne1 : ∀ e ∈ b1, e ≠ Event.segEnd id := fun e he => hne e (by rw [hb]; exact List.mem_append_left _ he)
+    have hact2 := segAlign_fold_active il secs page id b1 st1 hne1 hact1
+    obtain ⟨v2, hv2, _⟩ := segAlign_fold_mono il secs page b1 st1 id v1 hv1
+    generalize b1.foldl (segAlignStep il secs page) st1 = st2 at hact2 hv2
+    have hv3 : (segAlignStep il secs page st2 (Event.section sid)).1.lookup id =
+        some (max v2 (maxAlignment (secs sid))) := by
+      rw [segAlignStep_section]
+      simp only [lookup_map_val (fun k a => if st2.2.contains k then max a (maxAlignment (secs sid)) else a), hv2,
+        Option.map_some]
+      have : st2.2.contains id = true := by simpa using hact2
+      rw [if_pos this]
+    obtain ⟨v4, hv4, hle4⟩ := segAlign_fold_mono il secs page (b2 ++ rest) _ id _ hv3
+    rw [hv4]; simp only [Option.getD_some]
+    exact Nat.le_trans (Nat.le_max_right _ _) hle4
+
+/-- `bodyOk` without the alignment clause (which `segmentAlignments_ge` supplies). -/
+def bodyOk0 (il : Nat → Bool) (secs : Nat → Sec) (e : Event) : Bool :=
+  match e with
+  | .segStart j => !il j
+  | .section sid => (secs sid).alloc && (secs sid).hasData && (secs sid).loc.isNone
+  | _ => true
+
+theorem bodyOk_of_bodyOk0 (il : Nat → Bool) (secs : Nat → Sec) (S : Nat) (e : Event)
+    (h0 : bodyOk0 il secs e = true) (hS : ∀ sid, e = Event.section sid → maxAlignment (secs sid) ≤ S) :
+    bodyOk il secs S e = true := by
+  cases e with
+  | «section» sid =>
+    simp only [bodyOk0] at h0
+    simp only [bodyOk, h0, Bool.true_and, decide_eq_true_eq]
+    exact hS sid rfl
+  | segStart j => exact h0
+  | segEnd j => rfl
+  | setLoc a => rfl
+
+/-- **C04 `load_congruent` over the whole event walk, alignment hypotheses discharged.**
+`load_segment_congruent` with `page ≤ S` and `max_alignment ≤ S` derived from the model of
+`compute_segment_alignments` (`segmentAlignments_ge`). Remaining hypotheses: not `-r`; `id` is a LOAD and not
+the stack segment; inside the run no other LOAD starts, `id` is not started/ended again, every section is
+allocated, has file contents and no user location; section ids are not repeated; no offset exceeds `u64::MAX`;
+the main loop of `compute_segment_layout` succeeds. -/
+theorem load_segment_congruent_all (cfg : Config) (il isStack : Nat → Bool) (secs : Nat → Sec) (fh id : Nat)
+    (pre body post : List Event) (stf : SegState)
+    (hp : cfg.partialObj = false) (hl : il id = true) (hstack : isStack id = false)
+    (hbody : ∀ e ∈ body, bodyOk0 il secs e = true ∧ e ≠ Event.segStart id ∧ e ≠ Event.segEnd id)
+    (hnodup : ((pre ++ Event.segStart id :: (body ++ Event.segEnd id :: post)).filterMap secId).Nodup)
+    (hfits : ∀ r ∈ allRecs (layoutParts cfg il secs (pre ++ Event.segStart id :: (body ++ Event.segEnd id :: post))),
+      r.fileOff ≤ u64Max ∧ r.memOff ≤ u64Max)
+    (hs : segLoop cfg isStack secs
+      (layOf secs (layoutParts cfg il secs (pre ++ Event.segStart id :: (body ++ Event.segEnd id :: post)))) fh
+      ⟨[], []⟩ (pre ++ Event.segStart id :: (body ++ Event.segEnd id :: post)) = .ok stf) :
+    ∃ r ∈ stf.complete, r.id = id ∧
+      r.fileStart % 2 ^ (max r.align cfg.page) = r.memStart % 2 ^ (max r.align cfg.page) := by
+  have hge := segmentAlignments_ge il secs cfg.page id pre body (Event.segEnd id :: post) hl
+    (fun e he => (hbody e he).2.2)
+  exact load_segment_congruent cfg il isStack secs fh id pre body post stf hp hl hstack hge.1
+    (fun e he => ⟨bodyOk_of_bodyOk0 il secs _ e (hbody e he).1
+      (fun sid hsid => hge.2 sid (by rw [← hsid]; exact he)), (hbody e he).2⟩)
+    hnodup hfits hs
+
+/-! ### The records returned by `compute_segment_layout` -/
+
+theorem mem_insertBy {α : Type} (key : α → Nat × Nat) (x y : α) (l : List α) :
+    y ∈ insertBy key x l ↔ y = x ∨ y ∈ l := by
+  induction l with
+  | nil => simp [insertBy]
+  | cons a l ih =>
+    simp only [insertBy]
+    split
+    · simp
+    · simp only [List.mem_cons, ih]
+      constructor
+      · rintro (h | h | h)
+        · exact Or.inr (Or.inl h)
+        · exact Or.inl h
+        · exact Or.inr (Or.inr h)
+      · rintro (h | h | h)
+        · exact Or.inr (Or.inl h)
+        · exact Or.inl h
+        · exact Or.inr (Or.inr h)
+
+theorem mem_sortBy {α : Type} (key : α → Nat × Nat) (y : α) (l : List α) : y ∈ sortBy key l ↔ y ∈ l := by
+  unfold sortBy
+  have key' : ∀ (l acc : List α), y ∈ l.foldl (fun acc x => insertBy key x acc) acc ↔ y ∈ acc ∨ y ∈ l := by
+    intro l
+    induction l with
+    | nil => intro acc; simp
+    | cons a l ih =>
+      intro acc
+      simp only [List.foldl_cons, ih, mem_insertBy, List.mem_cons]
+      constructor
+      · rintro ((h | h) | h)
+        · exact Or.inr (Or.inl h)
+        · exact Or.inl h
+        · exact Or.inr (Or.inr h)
+      · rintro (h | h | h)
+        · exact Or.inl (Or.inr h)
+        · exact Or.inl (Or.inl h)
+        · exact Or.inr h
+  simpa using key' l []
+
+/-- Every `SegmentLayout` returned by `compute_segment_layout` is the (start, size, alignment) view of a record
+completed by its main loop (or of the all-zero default record when the id is out of range). -/
+theorem segmentLayout_records (cfg : Config) (segKey : Nat → Nat) (isStack : Nat → Bool) (nSegs : Nat)
+    (secs : Nat → Sec) (lay : Nat → Rec) (fh : Nat) (activeIds : List Nat) (evs : List Event)
+    (out : List (Nat × Rec))
+    (h : segmentLayout cfg segKey isStack nSegs secs lay fh activeIds evs = .ok out) (hne : out ≠ []) :
+    ∃ stf, segLoop cfg isStack secs lay fh ⟨[], []⟩ evs = .ok stf ∧
+      ∀ p ∈ out, ∃ r, (r ∈ stf.complete ∨ r = default) ∧
+        p.2.fileOff = r.fileStart ∧ p.2.memOff = r.memStart ∧ p.2.align = r.align := by
+  unfold segmentLayout at h
+  split at h
+  · simp only [Except.ok.injEq] at h; exact absurd h.symm hne
+  · split at h
+    · cases h
+    · rename_i stf hstf
+      refine ⟨stf, hstf, ?_⟩
+      simp only at h
+      split at h
+      · cases h
+      · simp only [Except.ok.injEq] at h
+        subst h
+        intro p hp
+        rw [mem_sortBy] at hp
+        obtain ⟨id, _, rfl⟩ := List.mem_map.1 hp
+        refine ⟨(sortBy (fun r => (r.id, 0)) stf.complete).getD id default, ?_, rfl, rfl, rfl⟩
+        rw [List.getD_eq_getElem?_getD]
+        cases hg : (sortBy (fun r => (r.id, 0)) stf.complete)[id]? with
+        | none => right; rfl
+        | some r =>
+          left
+          exact (mem_sortBy _ r _).1 (List.mem_of_getElem? hg)
+
+/-- Non-vacuity of `load_segment_congruent`: one LOAD segment with two sections (alignments 16 and 64); all
+hypotheses hold and the main loop of `compute_segment_layout` succeeds. -/
+example :
+    let cfg : Config := ⟨false, 0x400000, 12, 0, 99⟩
+    let il : Nat → Bool := fun id => id == 0
+    let secs : Nat → Sec := fun sid =>
+      if sid = 0 then { (default : Sec) with alloc := true, hasData := true, parts := [⟨4, 0x30⟩] }
+      else { (default : Sec) with alloc := true, hasData := true, parts := [⟨6, 0x100⟩] }
+    let body : List Event := [.section 0, .section 1]
+    let evs : List Event := [] ++ Event.segStart 0 :: (body ++ Event.segEnd 0 :: [])
+    let S := ((segmentAlignments il secs cfg.page evs).lookup 0).getD cfg.page
+    cfg.page ≤ S ∧
+    (∀ e ∈ body, bodyOk il secs S e = true ∧ e ≠ Event.segStart 0 ∧ e ≠ Event.segEnd 0) ∧
+    (evs.filterMap secId).Nodup ∧
+    (∀ r ∈ allRecs (layoutParts cfg il secs evs), r.fileOff ≤ u64Max ∧ r.memOff ≤ u64Max) ∧
+    (segLoop cfg (fun _ => false) secs (layOf secs (layoutParts cfg il secs evs)) 7 ⟨[], []⟩ evs).toBool = true := by
+  decide
+
 /-! ## Summary -/
 
 /-- The property at full strength on the model: the conclusions below for ALL inputs, without the three
@@ -664,8 +1957,8 @@ theorem C04_full_witness : ¬ C04_full := by
 /-- **C04, the part that holds for all inputs** (gaps: (1) memory disjointness needs `locsForward` — user
 locations never move the address backwards; (2) equal file/address displacement inside a LOAD needs `hasData` —
 no NOBITS section before a section with contents in the same LOAD; (3) PT_TLS start alignment does not hold;
-(4) well-bracketing of the event list is only tested (`wellBracketedB` on every dump and on synthetic inputs),
-not proved). -/
+(4) well-bracketing of the event list is proved separately: `order_wellbracketed`; (5) the LOAD congruence over a
+whole run is `load_segment_congruent`, under the hypotheses listed there). -/
 theorem C04_partial :
     (∀ cfg il secs evs, ∀ r ∈ allRecs (layoutParts cfg il secs evs), RecAligned r) ∧
     (∀ cfg il secs evs, (allRecs (layoutParts cfg il secs evs)).Pairwise (fun a b => a.fileOff + a.fileSize ≤ b.fileOff)) ∧
